@@ -1559,4 +1559,59 @@ class GenC15G(GridMixin, GenC15):
         return op
 
 
-SCENARIOS = {"C01": GenC01, "C02": GenC02, "C07": GenC07, "C09": GenC09, "C13": GenC13F, "C04": GenC04, "C05": GenC05, "C03": GenC03, "C06": GenC06, "C16": GenC16, "C14": GenC14F, "C12": GenC12, "C08": GenC08, "C15": GenC15G}
+class GenC08F(FileGen, GenC08):
+    """C08 with 'freshly read' sources: files of all five games are installed in SimFS and read, then converted
+    (the first history the property's quantifier names)."""
+
+    read_games = ("osu", "qua", "sm", "bms", "o2j")
+    write_games = ()
+    table = dict(GenC08.table, install_read=7)
+    p_api = 0.1
+
+    def setup(self):
+        FileGen.setup(self)
+        self.path_layout = {}
+
+    def gen_doc(self, game):
+        """title / artist / creator are kept ASCII: BMS stores shift_jis and the BMS converters transliterate by design,
+        which C08 does not judge (DESIGN 4.4)"""
+        from . import gen_files as G
+
+        k = self.s.knobs
+        asc = lambda: self.d.choice(ASCII_TITLES)  # noqa: E731
+        if game == "osu":
+            doc = G.gen_osu_doc(self.d, self.hi)
+            for f in ("creator", "version"):
+                doc["meta"][f] = asc()
+            return doc, G.gen_osu_fmt(self.d, k)
+        if game == "qua":
+            doc = G.gen_qua_doc(self.d, self.hi)
+            for f in ("Title", "Artist", "Creator", "DifficultyName"):
+                doc["meta"][f] = asc()
+            return doc, G.gen_qua_fmt(self.d, k)
+        if game == "sm":
+            doc = G.gen_sm_doc(self.d, 3)
+            for f in ("TITLE", "ARTIST", "CREDIT"):
+                if f in doc["meta"]:
+                    doc["meta"][f] = asc()
+            return doc, G.gen_sm_fmt(self.d, k)
+        if game == "bms":
+            doc, layout = G.gen_bms_doc(self.d, 4)
+            for h in doc["headers"]:
+                if h[0] in (b"TITLE", b"ARTIST", b"GENRE", b"PLAYLEVEL"):
+                    h[1] = asc().encode("ascii") if h[0] != b"PLAYLEVEL" else h[1]
+            self._layout = layout
+            return doc, G.gen_bms_fmt(self.d, k)
+        return G.gen_ojn_doc(self.d, 4), {}
+
+    def p_install_read(self, game=None):
+        game = game or self.r.choice(self.read_games)
+        path = self.new_path(game)
+        doc, fmt = self.gen_doc(game)
+        rd = self.io_read_op(game, path, faults=False)
+        if game == "bms":
+            rd["layout"] = self._layout
+        return [self.mk("fs.install", game=game, path=path, doc=doc, fmt=fmt), rd]
+
+
+SCENARIOS = {"C01": GenC01, "C02": GenC02, "C07": GenC07, "C09": GenC09, "C13": GenC13F, "C04": GenC04, "C05": GenC05, "C03": GenC03, "C06": GenC06, "C16": GenC16, "C14": GenC14F, "C12": GenC12, "C08": GenC08F, "C15": GenC15G}
